@@ -34,9 +34,10 @@ TRUSTED = [
     "Model/BcCache.lean: hand transcription of Bucket.load_bytecode/write_bytecode, of BaseLoader.load's use of the bucket and "
     "of the directory effects of dump_bytecode's statements; the handler classes, statement order and step lists are read by "
     "translate/bccache_sites.py (Python ast) on every run, the rest is tied by this correspondence run",
-    "pickle.load / marshal.load are parameters: total, raise only {EOFError, UnpicklingError, ValueError} resp. {EOFError, "
-    "ValueError, TypeError}, round-trip what dump wrote (validated on every truncation of real entries; on single-byte "
-    "damage CPython's marshal also raises SystemError/MemoryError, crashes or hangs: counted as outside the contract)",
+    "pickle.load / marshal.load are parameters: total, raise only {EOFError, UnpicklingError, ValueError, TypeError} resp. "
+    "{EOFError, ValueError, TypeError}, round-trip what dump wrote (validated on every truncation of real entries; on "
+    "single-byte damage CPython's pickle also raises MemoryError and its marshal SystemError/MemoryError, segfaults or hangs: "
+    "such cases are counted as outside the contract and not judged)",
     "SHA-1 of source / of name|filename injective; os.replace atomic; NamedTemporaryFile returns a fresh name",
     "the exception-class table Model.mroOf (compared with the interpreter's __mro__ on every run)",
 ]
@@ -52,28 +53,31 @@ CLAIM = dict(
               "statement order and write-path step list are re-read from bccache.py on every run + differential runs on the "
               "real classes (every truncation offset, byte damage, crash after every write-path step in a forked child, "
               "injected exceptions, exhaustive operation histories, option pairs sharing a directory)",
-    text="Theorems (Props/C27.lean): load_total_partial - for every byte string, bucket checksum and decoders within their "
-         "contracts Bucket.load_bytecode ends as miss or hit, or the exception is the one pickle.load raised and the source has no "
-         "covering handler around that call (true today: F10b, known finding; the disjunct vanishes once the call is guarded: "
-         "load_total_of_guarded); marshal_site_guarded and unguarded_sites_known re-prove from the source that no other decoder call "
-         "is unguarded; load_sound - load(write(ck, code)) is a hit with exactly code iff ck is the current source's checksum, any "
+    text="Theorems (Props/C27.lean): load_total - whatever the magic, for every byte string, bucket checksum and decoders within "
+         "their contracts Bucket.load_bytecode with the handlers as they are in the source ends as miss or hit and raises nothing "
+         "(from load_total_of_guarded; decoder_sites_guarded and no_unguarded_sites re-prove from the source on every run that each "
+         "decoder call is under a handler covering its exception set, load_shape the statement order); "
+         "load_sound - load(write(ck, code)) is a hit with exactly code iff ck is the current source's checksum, any "
          "other checksum a miss; foreign_magic_miss, short_entry_miss; fs_fault_safe - an exception at any step of dump_bytecode leaves the old entry, no temporary and propagates unless it is an OSError from os.replace; fs_crash_safe - after every prefix of dump_bytecode's "
          "operations (read from the source: temporary beside the entry, writes, close, os.replace), from every prior directory, the "
          "entry's name holds its previous content or the complete new entry, nothing else but the temporary changes and the "
          "temporary's name differs from the entry's; memcache_errors - with ignore_memcache_errors a failing client is a miss, "
          "without it the error propagates, values go to load_bytecode unchanged; history_fresh / history_fresh_single_cfg - for every "
          "history of loads, source changes, clears and lost entries through configurations that compile alike, every load executes "
-         "compile(current source) (checksum injective, decoders round-trip). Sharing a cache between configurations that compile "
+         "compile(current source) (checksum injective, decoders round-trip); leftover_tmp_never_loaded / leftover_tmp_not_matched_by_clear / "
+         "entry_matched_by_clear - a temporary left by a crash is never opened as an entry (any pattern, keys of equal length) and "
+         "with the default pattern is not matched by clear()'s glob, complete entries are. Sharing a cache between configurations that compile "
          "differently is NOT covered (key_ignores_configuration; F10a, known finding, negation witness in Findings/F10a.lean). Tie: "
          "Gen/BcCacheSites.lean regenerated each run; Bucket on every truncation offset of real entries, all byte values in the "
-         "magic+checksum region, sampled damage in the marshal region (forked), stale/other-source/foreign-magic entries; crash "
+         "magic+checksum region of one entry (sampled values on the others), sampled damage in the marshal region (forked), stale/other-source/foreign-magic entries; crash "
          "after each of the write path's steps in a forked child and injected OSError/KeyboardInterrupt at each step, directory "
          "compared with the model and re-rendered through a fresh Environment; every history of length <=4 (quick) / <=5 "
          "(thorough) over get/modify/clear/new-environment/3 kinds of truncation on FileSystemBytecodeCache and over a fake "
          "memcache client (ok/get fails/set fails/truncates, ignore on/off); 7 option pairs sharing a directory.",
     note="Trusted: Lean kernel; translator; hand model tied by correspondence; decoder contracts, SHA-1 injectivity, rename "
-         "atomicity assumed. Partial: load_total holds only up to the unguarded pickle.load (F10b); freshness across different "
-         "configurations is false (F10a). Exceptions injected into the write path propagate by design (docstring of "
+         "atomicity assumed. Outside the decoder contract (not judged): MemoryError / SystemError from pickle or marshal on damaged "
+         "bytes, and CPython crashing or hanging in marshal.load. Freshness across different configurations is false (F10a, known "
+         "finding). F10b (unguarded pickle.load) is fixed in b3991f5; every truncation offset and byte damage is still probed. Exceptions injected into the write path propagate by design (docstring of "
          "BytecodeCache.dump_bytecode) and are compared with the model, not judged.",
     design_ref="§5 C27",
 )
@@ -233,10 +237,11 @@ def run_unit(ctx, res, jinja2, stats):
             if mg != u.magic:
                 add("foreign-magic", f"src{si}:{label}", mg + data[M:], ck, code)
         # single-byte damage: header and checksum region in process
-        vals = range(256) if not ctx.quick else None
+        vals = range(256) if (not ctx.quick and si == 0) else None     # thorough: every value, on the first entry
+        extra = 3 if ctx.quick else 16
         for off in range(pk_end):
             choices = vals if vals is not None else sorted({data[off] ^ m for m in (0x01, 0x20, 0x80, 0xFF)} |
-                                                            {rng.randrange(256) for _ in range(3)})
+                                                            {rng.randrange(256) for _ in range(extra)})
             for v in choices:
                 if v != data[off]:
                     add("corrupted", f"src{si}@{off}={v}", data[:off] + bytes([v]) + data[off + 1:], ck, code)
@@ -538,6 +543,13 @@ def run_write_path(ctx, res, jinja2, root, stats):
                 res.violate("C27:write-path:crash:model-mismatch",
                             f"process death after {k} operations of dump_bytecode ({ev}), prior {prior}: directory {got_c}, model {want}",
                             replay, no_input=not bad)
+            import fnmatch
+            for fn in tmps:
+                if fnmatch.fnmatch(fn[2:], cache.pattern % ("*",)) or not fnmatch.fnmatch(entry, cache.pattern % ("*",)):
+                    res.violate("C27:write-path:tmp-matches-clear-pattern",
+                                f"leftover temporary {fn[2:]} matches clear()'s pattern {cache.pattern % ('*',)} (theorem "
+                                "leftover_tmp_not_matched_by_clear says it does not)", replay, no_input=True)
+                stats["leftover_temporaries_seen"] = stats.get("leftover_temporaries_seen", 0) + 1
             if any(fn[2:] == entry for fn in tmps):
                 res.violate("C27:write-path:tmp-name", "the temporary file has the entry's own name", replay)
             render_ok(d, f"a crash after {k} write-path operations (prior entry: {prior})", replay)
@@ -900,8 +912,8 @@ def run(ctx, res):
     res.coverage.update({
         "evaluations": total,
         "distinct_nontrivial": len(s1) + len(s2) + len(s3) + len(s4),
-        "rule": ("(a) for 2-3 real cache entries: the intact entry, EVERY truncation offset, every byte value (thorough; 4 masks + 3 "
-                 "random values quick) at every offset of magic and pickled checksum, sampled bit flips in the marshalled code "
+        "rule": ("(a) for 2-3 real cache entries: the intact entry, EVERY truncation offset, every byte value (thorough, first entry; otherwise 4 "
+                 "masks + 3/16 random values) at every offset of magic and pickled checksum, sampled bit flips in the marshalled code "
                  "(forked: CPython may crash), the older version's entry, another template's entry, 7 foreign magics; non-trivial = "
                  "distinct (kind, entry, offset, value). (b) process death after every prefix of dump_bytecode's operations and "
                  "OSError/KeyboardInterrupt raised at every step, prior entry absent/old. (c) every history of length <= "
